@@ -333,6 +333,8 @@ pub struct RefSlave {
     pub log: Rc<RefCell<Vec<Txn>>>,
     pub min_tsdr_bits: u64,
     pub max_tsdr_bits: u64,
+    /// a late reply starts `slot + 20 + [0, late_spread_bits)` bit times after the request
+    pub late_spread_bits: u64,
     pub slot_bits: u64,
 }
 
@@ -437,7 +439,7 @@ impl Device for RefSlave {
                 Some(r)
             }
             (Fault::LateReply, _) => {
-                delay = bits_to_us(self.baud, self.slot_bits + 20 + rng.below(100));
+                delay = bits_to_us(self.baud, self.slot_bits + 20 + rng.below(self.late_spread_bits));
                 Some(reply.clone())
             }
             (Fault::ScInsteadOfData, _) => Some(vec![rc::SC]),
